@@ -20,8 +20,10 @@ import (
 	"cosmossdk.io/math"
 	sdk "github.com/cosmos/cosmos-sdk/types"
 
+	authtypes "github.com/cosmos/cosmos-sdk/x/auth/types"
 	commontypes "github.com/dymensionxyz/dymension/v3/x/common/types"
 	datypes "github.com/dymensionxyz/dymension/v3/x/delayedack/types"
+	dymnstypes "github.com/dymensionxyz/dymension/v3/x/dymns/types"
 )
 
 // c18Dump renders module state that is reachable through queries but lives in indexes outside the
@@ -263,36 +265,73 @@ func c18CanonBank(raw json.RawMessage) json.RawMessage {
 	return out
 }
 
-func c18Generic(r *Run, f *Fix, trace []string) {
+// c18Result: what one export -> import comparison found.
+type c18Result struct {
+	F2   *Fix     // the imported chain (nil when the export was skipped or the import failed)
+	Sigs []string // signatures of everything the comparison reported
+	Exp1 map[string]json.RawMessage
+}
+
+func c18Generic(r *Run, f *Fix, trace []string) { c18Compare(r, f, trace) }
+
+// c18Compare: export f, import into a fresh application, compare (see the file comment); every
+// difference is reported through r.Violate with `trace` as replay and listed in the result.
+func c18Compare(r *Run, f *Fix, trace []string) (res c18Result) {
+	violate := func(sig, detail string) {
+		res.Sigs = append(res.Sigs, sig)
+		r.Violate(sig, detail, trace...)
+	}
 	if f.App == nil {
 		return
 	}
-	if m := f.Invariants(); m != "" {
+	inv0 := f.Invariants()
+	if inv0 != "" && c18Mode != "fork" {
 		// a state that already breaks a registered invariant is some other property's violation; the
 		// crisis module refuses such a genesis by design
 		r.Hit("c18/skipped/invariant-broken-before-export")
 		return
 	}
-	f2, exp1, exp2, err := f.ImportedCopy()
+	if inv0 != "" {
+		// continue-after-import: such a state is imported the way an operator would have to, with the
+		// crisis module's genesis assertion switched off; the same invariant must be the first broken one after
+		r.Hit("c18/imported-with-genesis-invariant-assertion-off")
+	}
+	f2, exp1, exp2, err := f.importedCopy(false, inv0 != "")
 	if err != nil && c18ImportClass(err) == "vfbc-deploy-needs-proposer" {
-		r.Violate("C18/import/exported-genesis-rejected/vfbc-deploy-needs-proposer", trunc200("InitChainer failed on the exported state: "+err.Error()), trace...)
+		violate("C18/import/exported-genesis-rejected/vfbc-deploy-needs-proposer", trunc200("InitChainer failed on the exported state: "+err.Error()))
 		r.Hit("c18/import-failed/vfbc-deploy-needs-proposer")
 		// continue the comparison with a proposer in the InitChainer header
-		f2, exp1, exp2, err = f.ImportedCopyOpt(true)
+		f2, exp1, exp2, err = f.importedCopy(true, inv0 != "")
+	}
+	res.Exp1 = exp1
+	if d := c18DymnsEscrowGap(f, exp1["dymns"]); d != "" {
+		violate("C18/dymns/exported-refunds-differ-from-escrow", d)
 	}
 	if err != nil {
 		cl := c18ImportClass(err)
-		r.Violate("C18/import/exported-genesis-rejected/"+cl, trunc200("InitChainer failed on the exported state: "+err.Error()), trace...)
+		violate("C18/import/exported-genesis-rejected/"+cl, trunc200("InitChainer failed on the exported state: "+err.Error()))
 		r.Hit("c18/import-failed/" + cl)
 		return
 	}
+	res.F2 = f2
 	r.Hit("c18/imported")
 	_, refundPerDenom, nRefunds := c18DymnsRefunds(exp1["dymns"])
 	want := exp1
 	if nRefunds > 0 {
-		r.Violate("C18/dymns/open-bids-and-buy-orders-dropped-and-refunded-by-minting", fmt.Sprintf("%d open bids / buy orders are not carried over; their escrow stays in the module account and the refund is minted", nRefunds), trace...)
+		violate("C18/dymns/open-bids-and-buy-orders-dropped-and-refunded-by-minting", fmt.Sprintf("%d open bids / buy orders are not carried over; their escrow stays in the module account and the refund is minted", nRefunds))
 		r.Hit("c18/dymns-refunds")
 		want = c18AdjustForDymnsRefunds(exp1)
+	} else if nSO := c18OpenSellOrders(f); nSO > 0 && c18Mode == "fork" {
+		// the same listed finding without a refund: sell orders nobody bid on are not in the genesis state
+		// either (only looked at when the chain continues after the import: the trace-end comparison never did)
+		violate("C18/dymns/open-bids-and-buy-orders-dropped-and-refunded-by-minting", fmt.Sprintf("%d open sell orders without a bid are not carried over", nSO))
+		r.Hit("c18/dymns-sell-orders-dropped")
+	}
+	if c18Mode == "fork" && c18DymnsExpiredBeyondGrace(f) > 0 {
+		// documented in x/dymns/genesis.go (not a finding): Dym-Names that expired longer ago than the
+		// grace period are left out of the genesis; raw listings of the store differ afterwards
+		res.Sigs = append(res.Sigs, "C18/dymns/names-expired-beyond-grace-left-out-by-design")
+		r.Hit("c18/dymns-names-expired-beyond-grace-left-out")
 	}
 	var mods []string
 	for m := range exp1 {
@@ -312,11 +351,11 @@ func c18Generic(r *Run, f *Fix, trace []string) {
 				_ = os.WriteFile(filepath.Join(dir, m+".1.json"), a, 0o644)
 				_ = os.WriteFile(filepath.Join(dir, m+".2.json"), b, 0o644)
 			}
-			r.Violate("C18/reexport/"+m+"-genesis-differs/"+diffSig(d), trunc200("second export differs at "+m+d), trace...)
+			violate("C18/reexport/"+m+"-genesis-differs/"+diffSig(d), trunc200("second export differs at "+m+d))
 		}
 	}
-	if m2 := f2.Invariants(); m2 != "" {
-		r.Violate("C18/invariants/broken-after-import", trunc200(m2), trace...)
+	if m2 := f2.Invariants(); m2 != "" && trunc200(m2) != trunc200(inv0) {
+		violate("C18/invariants/broken-after-import", trunc200(m2))
 	}
 	s1, s2 := f.App.BankKeeper.GetSupply, f2.App.BankKeeper.GetSupply
 	f.App.BankKeeper.IterateTotalSupply(f.Ctx, func(c sdk.Coin) bool {
@@ -325,7 +364,7 @@ func c18Generic(r *Run, f *Fix, trace []string) {
 			w = w.Add(math.NewIntFromBigInt(x))
 		}
 		if g := s2(f2.Ctx, c.Denom).Amount; !w.Equal(g) {
-			r.Violate("C18/bank/supply-differs", fmt.Sprintf("denom %s: %s (refund-adjusted) vs %s", c.Denom, w, g), trace...)
+			violate("C18/bank/supply-differs", fmt.Sprintf("denom %s: %s (refund-adjusted) vs %s", c.Denom, w, g))
 		}
 		return false
 	})
@@ -341,7 +380,71 @@ func c18Generic(r *Run, f *Fix, trace []string) {
 			if d2[k] == "" {
 				kind = "missing-after-import"
 			}
-			r.Violate("C18/queries/"+k+"-"+kind, trunc200(fmt.Sprintf("original `%s` imported `%s`", d1[k], d2[k])), trace...)
+			violate("C18/queries/"+k+"-"+kind, trunc200(fmt.Sprintf("original `%s` imported `%s`", d1[k], d2[k])))
 		}
 	}
+	return
+}
+
+func c18OpenSellOrders(f *Fix) (n int) {
+	defer func() { _ = recover() }()
+	ctx, _ := f.Ctx.CacheContext()
+	return len(f.App.DymNSKeeper.GetAllSellOrders(ctx))
+}
+
+// c18DymnsEscrowGap: completeness of the exported dymns genesis, judged on the EXPORTING chain and
+// independently of what the import then does: the refunds InitGenesis will perform are read from the
+// exported bids and buy orders (c18DymnsRefunds), so a bid missing from the export would go unnoticed
+// by the comparison.  The module's escrow invariant says its account holds exactly the highest bids of
+// the open Sell-Orders plus the offers of the open Buy-Orders; hence, per denom,
+// module balance = sum of the exported bids and offers.  (Not evaluated on a chain that is itself an
+// imported copy: there the refunds were minted and the old escrow stays in the account — the listed
+// finding.)
+func c18DymnsEscrowGap(f *Fix, dymns json.RawMessage) (detail string) {
+	if f.Imported || len(dymns) == 0 {
+		return ""
+	}
+	defer func() {
+		if e := recover(); e != nil {
+			detail = ""
+		}
+	}()
+	_, perDenom, _ := c18DymnsRefunds(dymns)
+	ctx, _ := f.Ctx.CacheContext()
+	bal := f.App.BankKeeper.GetAllBalances(ctx, authtypes.NewModuleAddress(dymnstypes.ModuleName))
+	denoms := map[string]bool{}
+	for d := range perDenom {
+		denoms[d] = true
+	}
+	for _, c := range bal {
+		denoms[c.Denom] = true
+	}
+	var ds []string
+	for d := range denoms {
+		ds = append(ds, d)
+	}
+	sort.Strings(ds)
+	for _, d := range ds {
+		want := new(big.Int)
+		if x := perDenom[d]; x != nil {
+			want = x
+		}
+		if have := bal.AmountOf(d).BigInt(); have.Cmp(want) != 0 {
+			return fmt.Sprintf("denom %s: the dymns module account holds %s, the exported bids and buy orders add up to %s", d, have, want)
+		}
+	}
+	return ""
+}
+
+func c18DymnsExpiredBeyondGrace(f *Fix) (n int) {
+	defer func() { _ = recover() }()
+	ctx, _ := f.Ctx.CacheContext()
+	k := f.App.DymNSKeeper
+	cut := ctx.BlockTime().Add(-1 * k.GetParams(ctx).Misc.GracePeriodDuration).Unix()
+	for _, d := range k.GetAllDymNames(ctx) {
+		if d.ExpireAt < cut {
+			n++
+		}
+	}
+	return n
 }
